@@ -414,9 +414,9 @@ def space_cases(K):
             SpaceCase("multibinary3", MultiBinary(3), 3, (3,), jnp.zeros(3, jnp.int8))]
 
 
-def make_ac(space, nlog, cut=True):
+def make_ac(space, nlog, cut=True, action_depth=2):
     env = UFEnv(space)
-    pol = MLPActorCriticPolicy(env, feature_size=2, feature_width=2, feature_depth=1, value_width=2, value_depth=1, action_width=2, action_depth=2, key=jr.key(0))
+    pol = MLPActorCriticPolicy(env, feature_size=2, feature_width=2, feature_depth=1, value_width=2, value_depth=1, action_width=2, action_depth=action_depth, key=jr.key(0))
     return cut_ac_policy(pol, nlog) if cut else pol
 
 
@@ -500,24 +500,25 @@ def case_judge(case, key="a"):
     return j
 
 
-def sec_ac(ck, case):
+def sec_ac(ck, case, action_depth=2):
     try:
-        pol = make_ac(case.space, case.nlog)
+        pol = make_ac(case.space, case.nlog, action_depth=action_depth)
         ok, why = True, "constructed"
     except Exception as ex:  # noqa: BLE001
         ok, why = False, f"MLPActorCriticPolicy over {case.name} cannot be constructed: {type(ex).__name__}: {str(ex)[:300]}"
-    if not ck.fact(f"ac.{case.name}.constructs", ok, why):
-        ck.skip(f"ac.{case.name}.*", "no policy object to check (see the .constructs obligation)")
+    dtag = "" if action_depth == 2 else f",action_depth={action_depth}"
+    if not ck.fact(f"ac.{case.name}{dtag}.constructs", ok, why):
+        ck.skip(f"ac.{case.name}{dtag}.*", "no policy object to check (see the .constructs obligation)")
         return
     if case.name.startswith("multidiscrete"):
-        real = make_ac(case.space, case.nlog, cut=False)
+        real = make_ac(case.space, case.nlog, cut=False, action_depth=action_depth)
         okj, whyj = jit_probe(lambda o_, m_: real(None, o_, action_mask=m_)[1], jnp.zeros(2), jnp.ones(case.mask_shape, bool))
-        if not ck.fact(f"ac.{case.name}.usable_under_jit", okj, "policy(None, obs, action_mask=mask) inside jax.jit: " + whyj):
-            ck.skip(f"ac.{case.name}.*", "the policy call cannot be traced")
+        if not ck.fact(f"ac.{case.name}{dtag}.usable_under_jit", okj, "policy(None, obs, action_mask=mask) inside jax.jit: " + whyj):
+            ck.skip(f"ac.{case.name}{dtag}.*", "the policy call cannot be traced")
             return
     obs = jnp.zeros(2)
     m0 = jnp.ones(case.mask_shape, bool)
-    nm = case.name
+    nm = case.name if action_depth == 2 else f"{case.name},action_depth={action_depth}"      # every policy configuration: the action head with and without its MLP
     ref = dist_ref(nm)
     trr = trace(ref, jnp.zeros(case.nlog), m0, jr.key(0), case.act, argnames=["L", "m", "key", "a"], label=f"lerax distribution for {nm} on given logits")
 
@@ -830,6 +831,8 @@ def main():
     for case in space_cases(3):
         with ck.section(f"actor_critic.{case.name}"):
             sec_ac(ck, case)
+        with ck.section(f"actor_critic.{case.name},action_depth=1"):
+            sec_ac(ck, case, action_depth=1)
     for K in ([3] if not ck.thorough else [3, 5]):
         with ck.section(f"q_policy@K={K}"):
             sec_q(ck, K, [0.1, 0.0, -0.5] + ([1.0, 0.5] if ck.thorough and K == 3 else []))
